@@ -82,7 +82,7 @@ def w_slim_hom(ctx, rng, idx):
 
 def w_ulam(ctx, rng, idx):
     k = 2 + idx % 2
-    states = [int(rng.integers(1, 5)) for _ in range(k)]
+    states = [int(rng.integers(1, 8 if k == 2 else 5)) for _ in range(k)]
     n = int(np.prod(states))
     sim = int(rng.integers(1, 6))
     cols = []
@@ -96,6 +96,7 @@ def w_ulam(ctx, rng, idx):
         cols.append([1] * (2 * k))
     tr = np.array(cols, dtype=int).T
     tr = tr[:, rng.permutation(tr.shape[1])]
+    tr = tr.astype([int, np.uint8, np.int32, np.int16, np.uint16][int(rng.integers(0, 5))])  # (the shipped tables are uint8)
     ctx.describe({'op': 'ulam_%dd' % k, 'states': states, 'simulations': sim, 'transitions': int(tr.shape[1])})
     fn = ulam.ulam_2d if k == 2 else ulam.ulam_3d
     call('ulam.ulam_%dd' % k, fn, tr, states, sim, prop=P)
